@@ -3,6 +3,7 @@ import contextlib
 import itertools
 
 from framework import Issue
+import fam_enter_susp as _enter_susp
 from world import UserBaseExc, UserExc, drive, exc_name, asyncstdlib
 
 RULE = (
@@ -428,6 +429,8 @@ def _run_reentrant(case, std):
 
 
 def observe(case):
+    if case["kind"] == "entersusp":
+        return _enter_susp.observe(case)
     if case["kind"] == "reentrant" and case["act"].startswith("enter-"):
         return {"impl": _run_enterreg(case, False), "std": _run_enterreg(case, True)}
     if case["kind"] == "reentrant":
@@ -438,6 +441,8 @@ def observe(case):
 
 
 def model_request(case):
+    if case["kind"] == "entersusp":
+        return _enter_susp.model_request(case)
     if case["kind"] == "reentrant" and case["act"].startswith("enter-"):
         return None      # a context manager whose enter registers on the stack: decided against contextlib alone
     if case["kind"] == "reentrant":
@@ -452,6 +457,8 @@ def model_request(case):
 
 def judge(case, obs, model):
     issues = []
+    if case["kind"] == "entersusp":
+        return _enter_susp.judge(case, obs, model)
     if case["kind"] == "reentrant":
         if obs["impl"] != obs["std"]:
             issues.append(Issue("oracle", {"asyncstdlib": obs["impl"], "contextlib": obs["std"]},
@@ -510,6 +517,8 @@ def judge(case, obs, model):
 
 def features(case, obs):
     f = [case["kind"]]
+    if case["kind"] == "entersusp":
+        return _enter_susp.features(case, obs)
     if case["kind"] == "unwind":
         f.append("n=%d" % len(case["stack"]))
         f.append("out=" + ("normal" if obs["impl"]["out"] is None else "raises"))
@@ -542,6 +551,8 @@ def _entry(i, kind, beh):
 
 def cases(tier, rng):
     yield from _reentrant_cases()
+    # managers whose enter / exit / block SUSPEND, cancelled at any suspension point (Machines/ExitStackEnter.lean)
+    yield from _enter_susp.cases(rng, 1500 if tier == "quick" else 20000)
     maxn = 3 if tier == "quick" else 4
     for n in range(0, maxn + 1):
         for behs in itertools.product(BEH, repeat=n):
